@@ -10,6 +10,13 @@ R17.4 coordinate convention: file number -> stored value offsets (-1, 0).
 
 Added in build round 2 (see DESIGN.md section 3, round-2 table):
 R17.5 the counter of made-up record names is threaded through every call of merged_gff_records: the updated counter it returns is stored where the next ...
+
+Added later in build rounds 2-3 (see DESIGN.md section 3, round-2/3 table):
+R17.10 union() returns a NEW db and leaves both operands alone: the result is constructed empty (cls()) and filled with update(); it is never constructed on ...
+R17.6 each identifier is stored once however the file is cut into blocks: in _db_from_gff the rows of an identifier already stored by an earlier block are ...
+R17.7 every table is queried with the caller's conditions: inside a loop over the db's tables, the keyword mapping that is passed on (`**mapping`) is not ...
+R17.8 GFF record identity: the patterns that extract the ID and Parent of a row match the key only where an attribute begins (start of the column or after ...
+R17.9 transaction discipline of the annotation dbs: every data-changing statement sent through the raw connection (self.db.execute / executemany of INSERT ...
 """
 
 from __future__ import annotations
